@@ -127,7 +127,8 @@ def run(tier: str) -> int:
             stats['rejected_by_front_end'] += len(rej)
             for n, f in funcs.items():
                 progs.append((n, f, srcs[n]))
-        pairs, timeouts = equiv.make_pairs(progs, configs(tier), rng, nvec, stats)
+        agree = []
+        pairs, timeouts = equiv.make_pairs(progs, configs(tier), rng, nvec, stats, agree=agree)
         mm, skips, gen, dis = equiv.run_equiv(pairs)
     finally:
         shutil.rmtree(work, ignore_errors=True)
@@ -136,6 +137,7 @@ def run(tier: str) -> int:
     def shape(meta, clause):
         return {'program': meta['program']} if meta['program'].startswith('hand_') else {}
     equiv.report(rep, pairs, timeouts, mm, skips, stats, extra_key=shape)
+    equiv.run_agree(rep, agree, extra_key=shape)
     rep.cov['distinct_nontrivial'] = len({(m['program'], m['xsrc']) for (_, _, m) in pairs})
     rep.cov['rule'] = ('hand-written + generated programs x {simplify under enable_* combinations, CF, CP, DCE, ordered pairs}; only '
                        'configurations whose output differs from the input and from each other are kept; non-trivial = distinct transformed program')
